@@ -83,7 +83,8 @@ uint32_t COObjGetSize(struct CO_OBJ_T *obj, CO_NODE *node, uint32_t width)
 __CPROVER_requires((obj == NULL || __CPROVER_r_ok(obj, sizeof(CO_OBJ))) && TYPE_OK(obj))
 __CPROVER_ensures(OBJ_BADARG(obj, node) ==> __CPROVER_return_value == 0)
 __CPROVER_ensures(TYPE_CLAUSE((!OBJ_BADARG(obj, node) && obj->Type->Size == NULL) ==> __CPROVER_return_value == 0))
-__CPROVER_ensures(VIEW_CLAUSE(!OBJ_BADARG(obj, node) ==> __CPROVER_return_value == G_OBJSIZE))
+/* (an entry without type reports 0, clause above: the instances with Type == NULL have G_OBJSIZE == 0) */
+__CPROVER_ensures(VIEW_CLAUSE((obj != NULL && node != NULL) ==> __CPROVER_return_value == G_OBJSIZE))
 __CPROVER_assigns();
 
 CO_ERR COObjRdValue(struct CO_OBJ_T *obj, struct CO_NODE_T *node, void *value, uint8_t width)
@@ -95,7 +96,7 @@ __CPROVER_ensures(TYPE_CLAUSE((!(OBJ_BADARG(obj, node) || value == NULL) && obj-
 /* otherwise exactly one call of the type's read function with the caller's buffer and width */
 __CPROVER_ensures(TYPE_CLAUSE((!(OBJ_BADARG(obj, node) || value == NULL) && obj->Type->Read != NULL) ==> G_READ_N == __CPROVER_old(G_READ_N) + 1))
 __CPROVER_ensures(G_READ_N == __CPROVER_old(G_READ_N) || G_READ_N == __CPROVER_old(G_READ_N) + 1)
-__CPROVER_ensures(VIEW_CLAUSE(!(OBJ_BADARG(obj, node) || value == NULL) ==> __CPROVER_return_value == G_RD_ERR))
+__CPROVER_ensures(VIEW_CLAUSE((obj != NULL && node != NULL && value != NULL) ==> __CPROVER_return_value == G_RD_ERR))
 __CPROVER_assigns(G_TYPE_STATE, G_READ_N, V_NODE.Sdo[0].Abort, V_NODE.Sdo[CO_SSDO_N - 1].Abort; value != NULL: __CPROVER_object_whole(value));
 
 CO_ERR COObjWrValue(struct CO_OBJ_T *obj, struct CO_NODE_T *node, void *value, uint8_t width)
@@ -106,7 +107,7 @@ __CPROVER_ensures((OBJ_BADARG(obj, node) || value == NULL) ==> (__CPROVER_return
 __CPROVER_ensures(TYPE_CLAUSE((!(OBJ_BADARG(obj, node) || value == NULL) && obj->Type->Write == NULL) ==> (__CPROVER_return_value == CO_ERR_OBJ_ACC && G_WRITE_N == __CPROVER_old(G_WRITE_N))))
 __CPROVER_ensures(TYPE_CLAUSE((!(OBJ_BADARG(obj, node) || value == NULL) && obj->Type->Write != NULL) ==> G_WRITE_N == __CPROVER_old(G_WRITE_N) + 1))
 __CPROVER_ensures(G_WRITE_N == __CPROVER_old(G_WRITE_N) || G_WRITE_N == __CPROVER_old(G_WRITE_N) + 1)
-__CPROVER_ensures(VIEW_CLAUSE(!(OBJ_BADARG(obj, node) || value == NULL) ==> __CPROVER_return_value == G_WR_ERR))
+__CPROVER_ensures(VIEW_CLAUSE((obj != NULL && node != NULL && value != NULL) ==> __CPROVER_return_value == G_WR_ERR))
 __CPROVER_assigns(G_TYPE_STATE, G_WRITE_N, V_NODE.Sdo[0].Abort, V_NODE.Sdo[CO_SSDO_N - 1].Abort);
 
 /* buffer access: Start = reset the object's position to 0, then one read/write of `size` bytes;
@@ -124,7 +125,7 @@ __CPROVER_ensures(TYPE_CLAUSE((!(OBJ_BADARG(obj, node) || buffer == NULL) && obj
 __CPROVER_ensures(TYPE_CLAUSE((!(OBJ_BADARG(obj, node) || buffer == NULL) && obj->Type->FN != NULL) ==> \
     (CNT == __CPROVER_old(CNT) + 1 && G_RESET_N == __CPROVER_old(G_RESET_N) + ((RESETS && obj->Type->Reset != NULL) ? 1 : 0)))) \
 __CPROVER_ensures(CNT == __CPROVER_old(CNT) || CNT == __CPROVER_old(CNT) + 1) \
-__CPROVER_ensures(VIEW_CLAUSE(!(OBJ_BADARG(obj, node) || buffer == NULL) ==> __CPROVER_return_value == G_##FN##_ERR))
+__CPROVER_ensures(VIEW_CLAUSE((obj != NULL && node != NULL && buffer != NULL) ==> __CPROVER_return_value == G_##FN##_ERR))
 BUF_CONTRACT(COObjRdBufStart, G_READ_N, Read, 1)
 __CPROVER_assigns(G_TYPE_STATE, G_READ_N, G_RESET_N, V_NODE.Sdo[0].Abort, V_NODE.Sdo[CO_SSDO_N - 1].Abort; buffer != NULL: __CPROVER_object_whole(buffer));
 BUF_CONTRACT(COObjRdBufCont, G_READ_N, Read, 0)
